@@ -33,7 +33,8 @@ def gen_task(g, name, svc, big, role="normal"):
             t["warmup-time-period"] = 0
         else:
             t["iterations"] = 100000
-        if g.coin(0.6):
+        if g.coin(0.6) or mean_service(svc) < 0.02:
+            # (an unthrottled eternal task with a fast cluster only burns simulation steps until it is cut)
             t["target-interval"] = g.pick([0.05, 0.2, 1.0])
         t["sim"] = {"task": name, "unit": "ops"}
         return t
@@ -783,6 +784,9 @@ class RaceHarness(Harness):
             if SimRunner.soft_failed and cfg.get("on_error") == "abort":
                 fired["runner_reports_failure_abort"] = len(SimRunner.soft_failed)
 
+            if out.hang and out.hang.startswith("step budget") and getattr(system, "budget_inconclusive", False):
+                # the simulation ran out of steps while virtual time was still advancing (a busy race, not a hang): nothing is judged
+                return RunResult(digest=race_digest(out), nontrivial=False, violations=[], stats={"steps": system.steps, "sim_s": system.clock.now, "faults": {}, "probes": {"inconclusive_step_budget": 1}}, sample=None)
             include, exclude = cfg.get("include"), cfg.get("exclude")
             expected_schedule = reference_filter(cfg["schedule"], include, exclude)
             info = analyse(run_cfg, expected_schedule, out, rc_events, rc_docs)
